@@ -1,6 +1,7 @@
 //! seqx – explicit-state / bounded-exhaustive exploration of the real open-coroutine crate.
 //! usage: seqx run <scenario> <tier> <out.json>
 //!        seqx replay <replay.json>
+mod ep;
 mod explore;
 mod report;
 mod runner;
@@ -11,6 +12,8 @@ mod c08;
 mod c09;
 mod c10;
 mod c14;
+mod c15;
+mod c19;
 mod c25;
 mod io;
 mod c28;
@@ -20,7 +23,7 @@ use report::Report;
 use serde_json::Value;
 
 fn scenarios() -> Vec<(&'static str, &'static str)> {
-    vec![("c07.raw", "C07"), ("c08.values", "C08"), ("c09.seq", "C09"), ("c10.sched", "C10"), ("c14.timed", "C14"), ("c25.local", "C25"), ("io.c16", "C16"), ("io.c17", "C17"), ("io.c18", "C18"), ("c28.helpers", "C28"), ("pool.c01", "C01"), ("pool.c02", "C02"), ("pool.c05", "C05"), ("pool.c11", "C11"), ("pool.c12", "C12"), ("pool.c13", "C13")]
+    vec![("c07.raw", "C07"), ("c08.values", "C08"), ("c09.seq", "C09"), ("c10.sched", "C10"), ("c14.timed", "C14"), ("c15.mix", "C15"), ("c19.opts", "C19"), ("c25.local", "C25"), ("ep.wake", "C20"), ("ep.interest", "C21"), ("io.c16", "C16"), ("io.c17", "C17"), ("io.c18", "C18"), ("c28.helpers", "C28"), ("pool.c01", "C01"), ("pool.c02", "C02"), ("pool.c05", "C05"), ("pool.c11", "C11"), ("pool.c12", "C12"), ("pool.c13", "C13")]
 }
 
 fn run_scenario(name: &str, tier: &str, rep: &mut Report) -> bool {
@@ -30,10 +33,13 @@ fn run_scenario(name: &str, tier: &str, rep: &mut Report) -> bool {
         "c09.seq" => c09::run(tier, rep),
         "c10.sched" => c10::run(tier, rep, "C10"),
         "c14.timed" => c14::run(tier, rep),
+        "c15.mix" => c15::run(tier, rep),
+        "c19.opts" => c19::run(tier, rep),
         "c25.local" => c25::run(tier, rep),
         "c28.helpers" => c28::run(tier, rep),
         n if n.starts_with("pool.") => return pool::run(n, tier, rep),
         n if n.starts_with("io.") => io::run(n, tier, rep),
+        n if n.starts_with("ep.") => return ep::run(n, tier, rep),
         _ => return false,
     }
     true
@@ -46,10 +52,13 @@ fn replay_scenario(name: &str, v: &Value, em: &mut runner::Emitter) -> bool {
         "c09.seq" => c09::replay(v, em),
         "c10.sched" => c10::replay(v, em),
         "c14.timed" => c14::replay(v, em),
+        "c15.mix" => c15::replay(v, em),
+        "c19.opts" => c19::replay(v, em),
         "c25.local" => c25::replay(v, em),
         "c28.helpers" => c28::replay(v, em),
         n if n.starts_with("pool.") => pool::replay(v, em),
         n if n.starts_with("io.") => io::replay(v, em),
+        n if n.starts_with("ep.") => ep::replay(v, em),
         _ => false,
     }
 }
